@@ -18,6 +18,9 @@ What is generated (consumed by Model.lean; the theorems of Props.lean are theref
       genEndpointEarlyDrop / genEndpointPlaintextDrop   process_cell: the two drops after incoming_crypto
       genRelayPlaintextDrop / genRelayEarlyDrop         relay_cell: the two drops before the crypto
       genSendEarly        send_cell: value assigned to cell.relay_early for own circuits
+      genKdfUsesWholeSecret   TunnelCrypto.generate_session_keys passes the whole shared secret to the KDF
+      genTepDirect        TunnelEndpoint.send (endpoint.py): when a packet is handed straight to the socket
+      genCreateInUse      on_create: the "circuit id is already in use" guard over the three tables
       genOwnCircuitData   on_data: guard of the own-circuit branch (vocabulary has BOTH `fromFirstHop` = full address equality
                           and `sameIp` = equality of the IP only)
       genDivert / genRedispatch   on_data: IPv8-looking-and-not-e2e test; `data[22] in self.exit_msg_ids`
@@ -152,6 +155,10 @@ class Func:
             if len(n.ops) != 1:
                 fail(self.where, "comparison chains are outside the subset")
             op, lhs, rhs = n.ops[0], n.left, n.comparators[0]
+            if isinstance(op, (ast.In, ast.NotIn)) and self.canon(n) in self.atoms:
+                return self.atoms[self.canon(n)][0]
+            if isinstance(op, (ast.Is, ast.IsNot)) and self.canon(n) in self.atoms:
+                return self.atoms[self.canon(n)][0]
             if isinstance(op, (ast.In, ast.NotIn)):
                 rc = self.canon(rhs)
                 if rc == "NO_CRYPTO_PACKETS":
@@ -550,6 +557,53 @@ def translate() -> tuple[str, dict]:
         fail(f.where, "the re-dispatch guard (`if data[22] not in self.exit_msg_ids: return`) expected")
     redispatch = f"(!{f.bexpr(rg[0])})"
 
+
+    # ---- TunnelCrypto.generate_session_keys: the WHOLE shared secret (ephemeral and static half) must feed the KDF ---------------
+    f = Func(CRYPTO, "TunnelCrypto", "generate_session_keys", cell_param=None)
+    par = f.fn.args.args[0].arg
+    rets = [s for s in f.body if isinstance(s, ast.Return)]
+    if len(f.body) != 1 or len(rets) != 1:
+        fail(f.where, "a single `return _generate_session_keys(<secret>)` expected")
+    arg = re.fullmatch(r"_generate_session_keys\((.*)\)", ast.unparse(rets[0].value))
+    if not arg:
+        fail(f.where, f"`{ast.unparse(rets[0].value)}`")
+    if arg.group(1) == par:
+        kdf_whole = True
+    elif re.fullmatch(re.escape(par) + r"\[.*\]", arg.group(1)):
+        kdf_whole = False        # a slice of the secret: part of the key agreement no longer reaches the session keys
+    else:
+        fail(f.where, f"KDF input `{arg.group(1)}` is outside the subset")
+
+    # ---- TunnelEndpoint.send: when does a packet go straight to the socket ------------------------------------------------------
+    ENDPOINT = "ipv8/messaging/anonymization/endpoint.py"
+    f = Func(ENDPOINT, "TunnelEndpoint", "send", cell_param=None)
+    pk = f.fn.args.args[2].arg
+    f.atoms = {f"self.settings.get({pk}[:22], False)": ("anonymized", "bool"), f"self.settings.get({pk}[:22])": ("anonymized", "bool"),
+               "self.tunnel_community is None": ("(!attached)", "bool"), "self.tunnel_community is not None": ("attached", "bool"),
+               "self.tunnel_community": ("attached", "bool")}
+    first = [s for s in f.body if isinstance(s, ast.If)][:1]
+    fb = [b for b in first[0].body if not ignorable(b)] if first else []
+    if not first or first[0].orelse or len(fb) != 2 or not ast.unparse(fb[0]).startswith("self.endpoint.send(") \
+            or not isinstance(fb[1], ast.Return):
+        fail(f.where, "`if <not anonymized>: self.endpoint.send(address, packet); return` expected first")
+    tep_direct = f.bexpr(first[0].test)
+    later_direct = [s for s in ast.walk(f.fn) if isinstance(s, ast.Call) and ast.unparse(s.func) == "self.endpoint.send"]
+    if len(later_direct) != 1:
+        fail(f.where, "self.endpoint.send(...) outside the first guard")
+
+    # ---- on_create: which circuit ids are refused because they are in use ------------------------------------------------------
+    f = Func(COMMUNITY, "TunnelCommunity", "on_create", cell_param=None)
+    pl = f.fn.args.args[2].arg
+    f.atoms = {f"{pl}.circuit_id in self.circuits": ("inCircuits", "bool"), f"{pl}.circuit_id in self.relay_from_to": ("inRelays", "bool"),
+               f"{pl}.circuit_id in self.exit_sockets": ("inExits", "bool")}
+    in_use = None
+    for t in guard_ifs(f.body):
+        c = f.canon(t)
+        if ".circuit_id in self." in c and "request_cache" not in c:
+            in_use = f.bexpr(t)
+    if in_use is None:
+        fail(f.where, "the `circuit id is already in use` guard over self.circuits / relay_from_to / exit_sockets was not found")
+
     lst = lambda xs: "[" + ", ".join(map(str, xs)) + "]"  # noqa: E731
     src = f"""/-
   GENERATED by tools/gen_c04.py from {CRYPTO}, {COMMUNITY}, {HIDDEN}, {PAYLOAD}, {TUNNEL} — do not edit.
@@ -609,6 +663,11 @@ abbrev genDecryptStartsAtFirstHop : Bool := {"false" if orders["decrypt_cell"][1
 @[simp] def genOwnCircuitData (hasCircuit originSet fromFirstHop sameIp : Bool) : Bool := {own_guard}
 @[simp] def genDivert (isIpv8 e2e : Bool) : Bool := {divert}
 @[simp] def genRedispatch (registered : Bool) : Bool := {redispatch}
+
+/-! key agreement, anonymizing endpoint, circuit-id reuse -/
+abbrev genKdfUsesWholeSecret : Bool := {"true" if kdf_whole else "false"}
+@[simp] def genTepDirect (anonymized attached : Bool) : Bool := {tep_direct}
+@[simp] def genCreateInUse (inCircuits inRelays inExits : Bool) : Bool := {in_use}
 
 end Ipv8.C04
 """
